@@ -2,7 +2,7 @@ SPECIFICATION Spec
 CONSTANT MaxT = 4
 CONSTANT MaxR = 1
 CONSTANT MaxF = 1
-CONSTANT MCKinds = {"plain", "defer"}
+CONSTANT KindSet = "simple"
 VIEW View
 INVARIANT ExactlyOnce
 INVARIANT OnlyRemaining
